@@ -4,6 +4,8 @@ pub mod c05;
 pub mod c06;
 pub mod c07;
 pub mod c08;
+pub mod c09;
+pub mod c10;
 pub mod c12;
 pub mod c13;
 pub mod c16;
@@ -20,6 +22,8 @@ pub fn by_id(id: &str) -> Option<Box<dyn Property>> {
         "C06" => Box::new(c06::C06),
         "C07" => Box::new(c07::C07),
         "C08" => Box::new(c08::C08),
+        "C09" => Box::new(c09::C09),
+        "C10" => Box::new(c10::C10),
         "C12" => Box::new(c12::C12),
         "C13" => Box::new(c13::C13),
         "C16" => Box::new(c16::C16),
